@@ -126,5 +126,67 @@ pub fn subchecks(_ctx: &Ctx) -> Vec<SubCheck> {
     fixed!(v, 20_000; (1, 2), (2, 4), (4, 8));
     fixed!(v, 8_000; (8, 16));
     v.push(SubCheck::new("extra/copy+zeroize/boxed/1..=9", 20_000, boxed_case(9)).tape(160));
+    serde_subchecks(&mut v);
     v
+}
+
+// ------------------------------------------------------------------------------------------------
+// construction by deserialization (`ConstMontyForm: Deserialize`, feature `serde`): "montgomery form
+// must be reduced" — whatever is accepted is stored canonically (< m), and every canonical
+// representative, which is what `Serialize` emits, is accepted unchanged.
+
+fn serde_construct<M: crate::reps::ConstMod<N>, const N: usize>(t: &mut Tape, c: &mut Case) -> CaseResult
+where
+    Uint<N>: crypto_bigint::Encoding,
+{
+    use crypto_bigint::modular::{ConstMontyForm, ConstMontyParams};
+    let ml = ul(<M as ConstMontyParams<N>>::MODULUS.as_ref());
+    let mb = big(&ml);
+    let xl: Limbs = match t.weighted(&[4, 2, 2, 1, 2]) {
+        0 => limbs_of(&gen::residue(t, &mb), N),
+        1 => ml.clone(),
+        2 => {
+            // m + small (wrapping at the width)
+            let mut v = ml.clone();
+            for _ in 0..t.range(1, 3) {
+                gen::inc(&mut v);
+            }
+            v
+        }
+        3 => vec![u64::MAX; N],
+        _ => gen::limbs(t, N),
+    };
+    c.limbs("montgomery_form", &xl);
+    c.text("modulus", M::LABEL);
+    let reduced = big(&xl) < mb;
+    c.label(if reduced { "serde construct: reduced" } else { "serde construct: not reduced" });
+    if xl == ml {
+        c.label("serde construct: exactly m");
+    }
+    c.nontrivial(!reduced || !is_zero(&xl));
+    let x = uint::<N>(&xl);
+    let enc = total("bincode::serialize(Uint)", || bincode::serialize(&x).unwrap())?;
+    let got = total("bincode::deserialize::<ConstMontyForm>", || bincode::deserialize::<ConstMontyForm<M, N>>(&enc))?;
+    match got {
+        Ok(f) => {
+            let stored = ul(f.as_montgomery());
+            vensure!(big(&stored) < mb, "deserialized ConstMontyForm stores {} which is not < m = {}", hex(&stored), hex(&ml));
+            veq!(stored, xl, "deserialized ConstMontyForm stores another representative");
+            vensure!(f == ConstMontyForm::<M, N>::from_montgomery(x), "deserialized ConstMontyForm != from_montgomery of the same representative");
+            let back = total("bincode::serialize(ConstMontyForm)", || bincode::serialize(&f).unwrap())?;
+            veq!(back, enc, "ConstMontyForm serializes to other bytes than it was read from");
+        }
+        Err(e) => vensure!(!reduced, "canonical representative {} refused: {e}", hex(&xl)),
+    }
+    Ok(())
+}
+
+macro_rules! serde_sub {
+    ($v:ident; $m:path, $n:literal, $name:literal) => {
+        $v.push(SubCheck::new(concat!("construct/serde/const/", $name), 4_000, serde_construct::<$m, $n>).tape(16 + 2 * $n));
+    };
+}
+
+pub fn serde_subchecks(v: &mut Vec<SubCheck>) {
+    crate::for_each_modulus!(serde_sub, v;);
 }
